@@ -140,6 +140,17 @@ def has_cut(t):
     return False
 
 
+def has_cond_cut(t):
+    """a cut inside the condition of an if-then-else of the control skeleton (local to the condition)"""
+    if t[0] == 'c':
+        n, args = t[1], t[2]
+        if (n, len(args)) == ('->', 2):
+            return has_cut(args[0]) or has_cond_cut(args[0]) or has_cond_cut(args[1])
+        if (n, len(args)) in ((',', 2), (';', 2), ('|', 2)):
+            return any(has_cond_cut(x) for x in args)
+    return False
+
+
 def feats(t, acc):
     if t[0] == 'c':
         n, args = t[1], t[2]
@@ -209,6 +220,10 @@ class Case(Prog):
         tag = "case"
         if v["qk"] == "ctx" and has_cut(self.body()):
             tag = "ctx-literal-body-with-cut"
+            if diff.startswith("expected") and "answers, got" in diff and self.prefix_ok:
+                tag += " missing-trailing-answers"
+        elif v["qk"] == "ctx" and has_cond_cut(self.body()):
+            tag = "ctx-literal-body-with-cut-in-condition"
             if diff.startswith("expected") and "answers, got" in diff and self.prefix_ok:
                 tag += " missing-trailing-answers"
         return "%s kind=%s qk=%s %s grammar={%s} query=%s: %s" % (
@@ -324,11 +339,14 @@ def replay_vectors(rep, vecs, workers, str_every=1):
 def run(tier):
     rep = Report(PROP, tier, META["level"])
     quick = tier == "quick"
-    rep.rule = ("every grammar of MC_C39 (start symbol nt1//1 with one body from the body grammar in both orders with a second rule, "
-                "with pushback, helper non-terminals nt2//1 in 2 (4) variants and recursive nt3//0 when mentioned; bodies given directly "
-                "to phrase/3) x every input (all lists over {a,b,c} of length <= %d, 6 partial lists) x query form; each case replayed "
-                "with list and with double-quoted-string terminals. distinct = kind x query form x syntax x set of body constructs x "
-                "outcome kind" % (3 if quick else 4))
+    rep.rule = ("every case of MC_C39: grammars = start symbol nt1//1 with one body of the body grammar (quick: 17 atoms, depth-2 bodies over "
+                "8 atoms, selected depth-3 bodies; thorough: depth 2 over 17 atoms, depth 3 over 4-5 atoms) followed by a second rule, "
+                "preceded by it when the body has a cut, (thorough) with a structured head, with pushback [b] / [X]; helper "
+                "non-terminals nt2//1 in 2 (thorough 4) variants and recursive nt3//0 when mentioned; bodies given directly to phrase/3 "
+                "(including the rejected \\+ and if-then forms). Inputs: all lists over {a,b,c} of length <= 3 (thorough: <= 4 for the "
+                "depth<=2 basic bodies) and 6 partial lists, phrase/3 and phrase/2, bound first argument, body in a variable, phrase/3 "
+                "under an outer choice point. Each case replayed with list terminals and (quick: every second grammar) with "
+                "double-quoted strings. distinct = kind x query form x syntax x set of body constructs x outcome kind")
     workers = 8 if quick else 14
     try:
         cap = int(os.environ.get("VERIF_MAX_WORKERS", "0"))      # development on a shared box
